@@ -126,6 +126,13 @@ package decorator
 //@ func (r *FileRestorer) restoreNode
 //@ requires inv: r.inv()
 //@ requires maps: r.mapsInv()
+//@ tracks inv: r.inv()
+//@ tracks maps: r.mapsInv()
+//@ tracks cursor_monotone: r.cursor >= old(r.cursor)
+//@ tracks lines_prefix: len(r.lines) >= old(len(r.lines)) && (forall j int :: 0 <= j && j < old(len(r.lines)) ==> r.lines[j] == old(r.lines[j]))
+//@ tracks comments_prefix: len(r.comments) >= old(len(r.comments)) && (forall j int :: 0 <= j && j < old(len(r.comments)) ==> r.comments[j] == old(r.comments[j]))
+//@ tracks ast_map_grows: forall k dst.Node :: {has(r.Ast.Nodes, k)} old(has(r.Ast.Nodes, k)) ==> has(r.Ast.Nodes, k) && r.Ast.Nodes[k] == old(r.Ast.Nodes[k])
+//@ tracks dst_map_grows: forall k ast.Node :: {has(r.Dst.Nodes, k)} old(has(r.Dst.Nodes, k)) ==> has(r.Dst.Nodes, k) && r.Dst.Nodes[k] == old(r.Dst.Nodes[k])
 //@ modifies r.cursor, r.lines, r.cursorAtNewLine, r.comments, elems(int), elems(*ast.CommentGroup), elems(*ast.Comment), heap(ast.Field.Comment), heap(ast.ImportSpec.Comment), heap(ast.ValueSpec.Comment), heap(ast.TypeSpec.Comment), heap(ast.CommentGroup.List), heap(ast.Comment.Slash), heap(ast.Comment.Text), map(dst.Node, ast.Node), map(ast.Node, dst.Node), map(*dst.Object, *ast.Object), map(*ast.Object, *dst.Object), map(*dst.Scope, *ast.Scope), map(*ast.Scope, *dst.Scope), map(*ast.Object, dst.Node), newobjects
 //@ ensures inv: r.inv()
 //@ ensures maps: r.mapsInv()
@@ -151,6 +158,21 @@ package decorator
 //@ foreach invariant comments_prefix: len(r.comments) >= entry(len(r.comments)) && (forall j int :: 0 <= j && j < entry(len(r.comments)) ==> r.comments[j] == entry(r.comments[j]))
 //@ foreach invariant ast_map_grows: forall k dst.Node :: {has(r.Ast.Nodes, k)} entry(has(r.Ast.Nodes, k)) ==> has(r.Ast.Nodes, k) && r.Ast.Nodes[k] == entry(r.Ast.Nodes[k])
 //@ foreach invariant dst_map_grows: forall k ast.Node :: {has(r.Dst.Nodes, k)} entry(has(r.Dst.Nodes, k)) ==> has(r.Dst.Nodes, k) && r.Dst.Nodes[k] == entry(r.Dst.Nodes[k])
+//@ case Package
+//@ loop 1 invariant inv: r.inv()
+//@ loop 1 invariant maps: r.mapsInv()
+//@ loop 1 invariant cursor_monotone: r.cursor >= entry(r.cursor)
+//@ loop 1 invariant lines_prefix: len(r.lines) >= entry(len(r.lines)) && (forall j int :: 0 <= j && j < entry(len(r.lines)) ==> r.lines[j] == entry(r.lines[j]))
+//@ loop 1 invariant comments_prefix: len(r.comments) >= entry(len(r.comments)) && (forall j int :: 0 <= j && j < entry(len(r.comments)) ==> r.comments[j] == entry(r.comments[j]))
+//@ loop 1 invariant ast_map_grows: forall k dst.Node :: {has(r.Ast.Nodes, k)} entry(has(r.Ast.Nodes, k)) ==> has(r.Ast.Nodes, k) && r.Ast.Nodes[k] == entry(r.Ast.Nodes[k])
+//@ loop 1 invariant dst_map_grows: forall k ast.Node :: {has(r.Dst.Nodes, k)} entry(has(r.Dst.Nodes, k)) ==> has(r.Dst.Nodes, k) && r.Dst.Nodes[k] == entry(r.Dst.Nodes[k])
+//@ loop 2 invariant inv: r.inv()
+//@ loop 2 invariant maps: r.mapsInv()
+//@ loop 2 invariant cursor_monotone: r.cursor >= entry(r.cursor)
+//@ loop 2 invariant lines_prefix: len(r.lines) >= entry(len(r.lines)) && (forall j int :: 0 <= j && j < entry(len(r.lines)) ==> r.lines[j] == entry(r.lines[j]))
+//@ loop 2 invariant comments_prefix: len(r.comments) >= entry(len(r.comments)) && (forall j int :: 0 <= j && j < entry(len(r.comments)) ==> r.comments[j] == entry(r.comments[j]))
+//@ loop 2 invariant ast_map_grows: forall k dst.Node :: {has(r.Ast.Nodes, k)} entry(has(r.Ast.Nodes, k)) ==> has(r.Ast.Nodes, k) && r.Ast.Nodes[k] == entry(r.Ast.Nodes[k])
+//@ loop 2 invariant dst_map_grows: forall k ast.Node :: {has(r.Dst.Nodes, k)} entry(has(r.Dst.Nodes, k)) ==> has(r.Dst.Nodes, k) && r.Dst.Nodes[k] == entry(r.Dst.Nodes[k])
 //@ case FuncDecl
 //@ assumes signature_not_shared: !has(r.Ast.Nodes, cast(n, type(*dst.FuncDecl)).Type)
 //@ case BadDecl
